@@ -360,6 +360,15 @@ class Scenario:
                     return 0
 
                 ns["run"] = run
+            elif path == "" and case.get("td_salt", 0) % 2:
+                # an ordinary (non-CLI) root component that happens to have a method called run() - say the body of a worker it
+                # would start itself: having it makes nothing a CLI application, and nobody but the component calls it
+                async def run(self: Any) -> Any:  # noqa: F811
+                    sc.log("foreign-run-called", "root")
+                    await anyio.sleep(1000)
+
+                ns["run"] = run
+                sc.log("foreign-run-defined", "root")
             return type("App_" + (path.replace(".", "_") or "root"), (base,), ns)
 
         for path in sorted(nodes, key=lambda p: -p.count(".") - (1 if p else 0)):
@@ -464,6 +473,10 @@ def check(sc: Scenario) -> tuple[list[dict[str, Any]], dict[str, int]]:
                                    f"application must keep running until it is told to stop")
     if kind == "service_crash_after" and not any(e["kind"] == "service-crash" for e in ev):
         bad("app-ended-too-early", f"the application ended ({describe_outcome(o)}) before its service task crashed")
+    if any(e["kind"] == "foreign-run-defined" for e in ev):
+        c["non_cli_roots_with_a_method_named_run"] = 1
+        if any(e["kind"] == "foreign-run-called" for e in ev):
+            bad("app-run-of-non-cli-called", "the root component is not a CLIApplicationComponent, yet run_application called its method named run()")
     # signal_during_run / service_crash_during: the statement fixes no outcome
     return V, c
 
